@@ -55,6 +55,12 @@ def strategy(draw):
             lo = f0t * draw(gen.floats(1.3, 3.0))
         else:
             hi = f0t * draw(gen.floats(0.3, 0.75))
+    if draw(gen.chance(8)):
+        # "no limit" written as a number: an upper limit far above / a lower limit far below the frequencies
+        if draw(st.booleans()):
+            hi = draw(st.sampled_from([float("inf"), 1e20, 1e300]))
+        else:
+            lo = draw(st.sampled_from([0.0, -float("inf"), -1e20, 1e-300]))
     if lo is not None and hi is not None and draw(gen.chance(3)):
         lo, hi = hi, lo            # limits may be given in either order (the code sorts them)
     return dict(f0t=f0t, npts=npts, bumps=bumps, sd=sd, lw=draw(gen.log_floats(5, 600)), nw=int(round(draw(gen.log_floats(1, 400)))),
